@@ -73,6 +73,10 @@ type Obs struct {
 	AfterProbe string   `json:"after_probe,omitempty"`
 }
 
+// the errno of a refused seccomp(2) (History.Refusal) and its code in the model's request (bits 3–5 of the first token)
+var refusalErrno = map[string]uint32{"EPERM": 1, "EACCES": 13, "ENOMEM": 12, "EAGAIN": 11, "ESRCH": 3, "EBUSY": 16}
+var refusalCode = map[string]int{"": 0, "EPERM": 1, "EACCES": 2, "ENOMEM": 3, "EAGAIN": 4, "ESRCH": 5, "EBUSY": 6}
+
 func policyFor(kind string) seccomp.Policy {
 	switch kind {
 	case "invalid":
@@ -186,11 +190,8 @@ func child(h History) {
 			syscall.RawSyscall6(syscall.SYS_PRCTL, 38, 1, 0, 0, 0, 0)
 		}
 		errno := uint32(38)
-		switch h.Refusal {
-		case "EPERM":
-			errno = 1
-		case "EACCES":
-			errno = 13
+		if e, ok := refusalErrno[h.Refusal]; ok {
+			errno = e
 		}
 		outer := []syscall.SockFilter{{Code: 0x20, K: 0}, {Code: 0x15, Jt: 0, Jf: 1, K: 317}, {Code: 0x06, K: 0x00050000 | errno}, {Code: 0x06, K: 0x7fff0000}}
 		prog := syscall.SockFprog{Len: uint16(len(outer)), Filter: &outer[0]}
@@ -507,12 +508,7 @@ func request(h History) string {
 	}
 	if h.NoSeccomp {
 		priv += 2
-		switch h.Refusal {
-		case "EPERM":
-			priv += 8
-		case "EACCES":
-			priv += 16
-		}
+		priv += 8 * refusalCode[h.Refusal]
 	}
 	if h.NoNNP {
 		priv += 4
@@ -575,7 +571,7 @@ func genHistory(r *rand.Rand, profile string) History {
 	}
 	if profile == "load" && r.Intn(5) == 0 || profile == "tsync" && r.Intn(8) == 0 {
 		h.NoSeccomp = true
-		h.Refusal = []string{"", "", "EPERM", "EACCES"}[r.Intn(4)]
+		h.Refusal = []string{"", "", "EPERM", "EACCES", "ENOMEM", "ENOMEM", "EAGAIN", "ESRCH", "EBUSY"}[r.Intn(9)]
 	} else if (profile == "load" || profile == "nnp") && r.Intn(8) == 0 {
 		// only a privileged process can install the outer filter without setting the bit itself
 		h.NoNNP, h.Privileged = true, true
